@@ -52,7 +52,7 @@ CHECKS = {
         "var_A/var_G/var_a, Bulmer ratio incl. its NaN rule, all twelve favourable/deleterious/neutral allele statistics with every dtype, and for "
         "fitted rrBLUP models: intercept = training mean, monomorphic markers exactly zero, penalised criterion no worse than the zero solution, "
         "normal equations within a bound derived from the solver's stopping rules. "
-        "Also: effects assigned through the public setters after the model object has been used with other effects.",
+        "Also: effects assigned through the public setters after the model object has been used with other effects. Fifth round: rrBLUP training matrices of float-coded dosages in [0, ploidy] (expected / imputed / mean-filled values, markers constant at non-dyadic values, n = 2..40).",
         "Tolerances are k*eps*sum|terms|; no subnormal effects; Nelder-Mead optimum of the likelihood is not itself checked.",
         "DESIGN.md §3 C04"),
     "C11": (
@@ -73,7 +73,7 @@ CHECKS = {
         "(written from the mating protocols, not from the library's D-matrix formulas; self-tested on hand-computed values at import) within "
         "1e-11 x sum|terms|; symmetry in exchangeable parents, zero for identical parents, mem invariance, taxa-permutation equivariance, labels; "
         "usefulness criterion = parental mean + intensity x sqrt(variance); rprob_filial and cov_D* utilities against enumerated pedigrees. "
-        "Also: one factory / model / genotype object re-used through 2..4 requests with public modifications in between. Later rounds: usefulness criterion through the four protocols' problem() with the breeding-value slot filled; genetic maps not monotone in stored marker order.",
+        "Also: one factory / model / genotype object re-used through 2..4 requests with public modifications in between. Later rounds: usefulness criterion through the four protocols' problem() with the breeding-value slot filled; genetic maps not monotone in stored marker order. Fifth round: chromosomes of 200..600 markers with the number of heterozygous (dihybrid) or differing (two-/three-/four-way) markers of a parent inside one chunk forced to 127..513 incl. exact multiples of 256, against a pairwise closed form built from the two-locus enumeration.",
         "Binary allele coding; progeny genic covariance classes cannot be instantiated (abstract) and are not exercised.",
         "DESIGN.md §3 C12"),
     "C13": (
@@ -138,7 +138,7 @@ CHECKS = {
         "members, bounds, dtypes), reported objective/constraint values equal a fresh evaluation, multi-objective results contain no dominated "
         "member, the problem object is unchanged; SortingSubsetOptimizationAlgorithm attains the brute-force optimum over all C(n,k) subsets of "
         "separable problems; hill-climbers are 1-exchange locally optimal under (violation, score); pymoo_addon operators keep subsets valid. "
-        "Also: objective units from 1e-12 to 1e15 and near-ties, population-wise (elementwise=False) evaluation with both constraint kinds, signed-slack constraints. Later rounds: position-dependent objectives and constraints; 2-4 integer-valued constraint rows of both kinds so that exact ties of aggregate violations occur.",
+        "Also: objective units from 1e-12 to 1e15 and near-ties, population-wise (elementwise=False) evaluation with both constraint kinds, signed-slack constraints. Later rounds: position-dependent objectives and constraints; 2-4 integer-valued constraint rows of both kinds so that exact ties of aggregate violations occur. Fifth round: the box of a built real / integer problem re-declared (narrowed) through its public properties before the optimiser runs.",
         "GA runs are not replay-deterministic through the public API (C08 findings); oracles are validity predicates and every violation message carries the returned arrays.",
         "DESIGN.md §3 C06"),
     "C07": (
@@ -149,7 +149,7 @@ CHECKS = {
         "candidates by an independently computed criterion and permuting/relabelling the population permutes the choice; ten protocol combinations "
         "with GA optimisers: configuration decision is the reported solution and, for multi-objective runs, a non-dominated argmax of the declared "
         "preference transformation recomputed by the harness. "
-        "Also: independent OHV and UC truncation criteria with the exact optimiser incl. cross maps beyond 1024/2048 candidates, and re-use of one protocol object with settings and populations changed between uses. Later rounds: usefulness-criterion protocols with the two-/three-/four-way and dihybrid variance factories against an independent criterion whose parental shares come from the pedigree.",
+        "Also: independent OHV and UC truncation criteria with the exact optimiser incl. cross maps beyond 1024/2048 candidates, and re-use of one protocol object with settings and populations changed between uses. Later rounds: usefulness-criterion protocols with the two-/three-/four-way and dihybrid variance factories against an independent criterion whose parental shares come from the pedigree. Fifth round: the declared preference transformation in units 2^-60..2^30 and about an origin up to 2^36 away (front scores that differ by far less than their magnitude).",
         "No independent truncation criterion for OHV/UC/OCS (validity and consistency only); fronts where the default preference is NaN are labelled and skip only the argmax clause.",
         "DESIGN.md §3 C07"),
     "C08": (
@@ -160,7 +160,7 @@ CHECKS = {
         "different global seeds and leaves random/numpy.random states byte-identical. Plus one enumerated representative call per component "
         "class. Calls matching the known findings (pymoo-based optimisers, Random*Selection.problem, UnconstrainedSetGeneticAlgorithm) have "
         "exactly the affected clauses skipped and counted. "
-        "Also: long-lived components (incl. copies) created before the re-seeding, and large inputs at which size-dependent branches are entered. Later rounds: every documented argument form of the four sampling utilities, including forms the tree rejects (a rejected call must leave the global streams untouched).",
+        "Also: long-lived components (incl. copies) created before the re-seeding, and large inputs at which size-dependent branches are entered. Later rounds: every documented argument form of the four sampling utilities, including forms the tree rejects (a rejected call must leave the global streams untouched). Fifth round: a fresh child interpreter against a child interpreter that first ran a generated prefix containing the same (deap-based) optimiser under another weight vector of the same length.",
         "Prior interpreter histories are sampled (prefix programs + direct draws), not enumerated; hidden entropy that never reaches an output is invisible.",
         "DESIGN.md §3 C08"),
     "C09": (
